@@ -25,6 +25,17 @@ Clause → theorem
   fix #15 leaves connected inputs alone, only appends     fix_preserves_order, fix_only_appends
   optimal start = a cheapest path                         argminFirst_min
 
+NOT covered by a theorem / reading of the statement:
+  "single connected 2-D region → one (N,2) array … one coordinate set per region" is stated nowhere
+  in Lean; the harness checks it with "region" read as CONNECTED COMPONENT OF THE BOUNDARY MASK
+  (what `_compute` labels).  Taken literally (component of the enclosed cell set) it does not hold
+  for a region with a hole: the code returns a ring-shaped region as a list of two unsorted sets
+  (outer and inner contour; witness in claims/C15.json).  The theorems above do not depend on that
+  reading: every boundary cell is gathered exactly once for ANY labelling.
+  The grid itself (default limits / default deltas / scalar delta / (max, min) entries / the
+  fall-back region when 1 − alpha is not reached) has no Lean model; the harness compares it with
+  the documented rule in Python on every run.
+
 The labelling itself (`scipy.ndimage.label`) is a leaf: `gather_each_boundary_cell_once` holds for
 every labelling with "label ∈ 1..m ⇔ boundary cell"; that hypothesis is checked on the real
 label array in every run.  k-NN lists (sklearn) are a leaf: the sorter theorems hold for every
